@@ -194,6 +194,34 @@ SHAPES = ('plain', 'layered')
 DEPTH = {'quick': 4, 'thorough': 5}
 BASIC_DEPTH = 6
 LAYERED_DEPTH = {'quick': 3, 'thorough': 4}
+# names of the sub-map and of the handle in it (map shape 'plain'): (map
+# name R, handle name K, name of a bystander handle in the same sub-map or
+# None).  StaticResourceMap stores identifier names in __slots__ and every
+# other name (not an identifier, or starting with '__') in the instance
+# __dict__: the access paths are R/K, [R][K], getattr(getattr(s, R), K),
+# s[R][K], s.get(R).get(K)().  'plain' is what every other part uses.
+NAMES = {
+    'plain': ('r', 'k', None),
+    'dotted': ('r', 'k.png', None),         # a file name with its extension
+    'digit': ('r', '1up', None),
+    'dash': ('r', 'level-1', None),
+    'dunder': ('r', '__k__', None),
+    'private': ('r', '__k', None),          # would be mangled as a slot
+    'keyword': ('r', 'class', None),        # identifier, not writable as s.r.x
+    'mixed': ('r', 'k.png', 'k'),           # slots and __dict__ in one map
+    'mixed_slot': ('r', 'k', 'k.png'),      # ... the resource in the slot
+    'map_dotted': ('r.d', 'k', None),       # the sub-map is the odd name
+}
+NAME_CLASS = {'dotted': 'key_nonslot', 'digit': 'key_nonslot',
+              'dash': 'key_nonslot', 'dunder': 'key_nonslot',
+              'private': 'key_nonslot', 'mixed': 'key_nonslot',
+              'keyword': 'key_slot', 'mixed_slot': 'key_slot',
+              'map_dotted': 'map_nonslot'}
+ODD_NAMES = tuple(n for n in NAMES if n != 'plain')
+# values of the fixpoint parts of the odd names (the histories-names part
+# takes every value)
+NAMES_FIXPOINT_VALUES = {'quick': ('none', 'object'), 'thorough': None}
+NAMES_DEPTH = {'quick': 3, 'thorough': 4}
 FULL_LETTERS = 'cMmaigwWx'
 BASIC_LETTERS = 'cMmaigx'
 LAYERED_LETTERS = FULL_LETTERS + 'sX'
@@ -466,28 +494,42 @@ def _is_in(obj, seq):
     return None
 
 
-def part_name(spec, loader, shape='plain'):
+def part_name(spec, loader, shape='plain', names='plain'):
+    if names != 'plain':
+        return f'fixpoint-names/{names}/' + spec \
+            + ('' if loader == 'ok' else '/' + loader)
     return ('fixpoint/' if shape == 'plain' else f'fixpoint-{shape}/') \
         + spec + ('' if loader == 'ok' else '/' + loader)
 
 
 class HandleDriver:
-    def __init__(self, spec, loader='ok', shape='plain'):
+    def __init__(self, spec, loader='ok', shape='plain', names='plain'):
         if spec not in VALUES or loader not in LOADERS \
-                or shape not in SHAPES:
-            raise HarnessError(f'unknown value / loader / shape {spec!r} '
-                               f'{loader!r} {shape!r}')
+                or shape not in SHAPES or names not in NAMES \
+                or (names != 'plain' and shape != 'plain'):
+            raise HarnessError(f'unknown value / loader / shape / names '
+                               f'{spec!r} {loader!r} {shape!r} {names!r}')
         self.spec = spec
         self.loader = loader
         self.shape = shape
-        self.name = part_name(spec, loader, shape)
-        self.alphabet = ACCESS + ('clear',) + (
-            SHADOW_OPS if shape == 'layered' else ())
+        self.names = names
+        self.name = part_name(spec, loader, shape, names)
+        if names != 'plain':
+            # the world files spell the reference "$res{r.k}" (and a '.' in
+            # a name cannot be written there): no world-file accesses
+            self.alphabet = tuple(LETTER[x] for x in BASIC_LETTERS)
+        else:
+            self.alphabet = ACCESS + ('clear',) + (
+                SHADOW_OPS if shape == 'layered' else ())
 
     def params(self):
         d = dict(value=self.spec, loader=self.loader, ops=list(self.alphabet))
         if self.shape != 'plain':
             d['shape'] = self.shape
+        if self.names != 'plain':
+            R, K, sib = NAMES[self.names]
+            d['names'] = dict(config=self.names, map=R, handle=K,
+                              bystander=sib)
         return d
 
     # -- construction ---------------------------------------------------
@@ -496,10 +538,17 @@ class HandleDriver:
         ctx = Ctx()
         ctx.hits = collections.Counter()
         ctx.m = desper.ResourceMap()
+        ctx.R, ctx.K, sibling = NAMES[self.names]
+        ctx.sibling = None
         if self.shape == 'plain':
             ctx.h = CountingHandle(self.spec, self.loader)
-            ctx.m['r/k'] = ctx.h
+            ctx.m[f'{ctx.R}/{ctx.K}'] = ctx.h
             ctx.tracks = [Track(ctx.h, 'named')]
+            if sibling is not None:
+                # a bystander in the same sub-map: never addressed, so its
+                # load() never runs (state oracle)
+                ctx.sibling = CountingHandle(self.spec, 'ok')
+                ctx.m[f'{ctx.R}/{sibling}'] = ctx.sibling
         else:
             # two handles under the one name r/k, the way desper documents
             # it: a populator that nests conflicting handles, applied twice.
@@ -526,7 +575,8 @@ class HandleDriver:
         ctx.t = ctx.tracks[0]
         ctx.ts = ctx.tracks[1] if len(ctx.tracks) > 1 else None
         ctx.worlds = {}
-        for path, key in WORLD_KEYS.items():
+        for path, key in (WORLD_KEYS.items() if self.names == 'plain'
+                          else ()):
             wh = desper.WorldFromFileHandle(made['files'][path])
             ctx.m[key] = wh
             # harness: the world handle never keeps a world between two
@@ -549,20 +599,23 @@ class HandleDriver:
         """-> list of the objects the access delivered (one, or one per
         reference of the world file)."""
         m, h, s = ctx.m, ctx.h, ctx.s
+        R, K = ctx.R, ctx.K
         if path == 'call':
             return [h()]
         if path == 'shadow_call':
             return [ctx.ts.h()]
         if path == 'map_composite':
-            return [m['r/k']]
+            return [m[f'{R}/{K}']]
         if path == 'map_chained':
-            return [m['r']['k']]
+            return [m[R][K]]
         if path == 'static_attr':
-            return [s.r.k]
+            if self.names == 'plain':
+                return [s.r.k]
+            return [getattr(getattr(s, R), K)]
         if path == 'static_item':
-            return [s['r']['k']]
+            return [s[R][K]]
         if path == 'static_get':
-            return [s.get('r').get('k')()]
+            return [s.get(R).get(K)()]
         if path in WORLD_KEYS:
             wh = ctx.worlds[path]
             wh.clear()
@@ -601,6 +654,8 @@ class HandleDriver:
         f = dict(value=BAND[self.spec])
         if path is not None:
             f['path'] = FAMILY[path]
+        if self.names != 'plain':
+            f['names'] = NAME_CLASS[self.names]
         return f
 
     def _hit(self, ctx, t, name):
@@ -781,6 +836,15 @@ class HandleDriver:
                 ctx.hits['eq_nonbool_value'] += 1
             if self.spec == 'bool_raises':
                 ctx.hits['bool_raises'] += 1
+        if self.names != 'plain' and FAMILY[kind] in ('static', 'map'):
+            fam = FAMILY[kind]
+            ctx.hits[f'names_{self.names}_{fam}_access'] += 1
+            if not first:
+                ctx.hits[f'names_{fam}_cache_hit'] += 1
+            elif t.had_epoch:
+                ctx.hits[f'names_{fam}_reload_after_clear'] += 1
+            if kind == 'static_attr':
+                ctx.hits['names_static_getattr_access'] += 1
         if kind == 'static_attr':
             ctx.hits['static_attr_access'] += 1
         elif FAMILY[kind] == 'static':
@@ -892,6 +956,23 @@ class HandleDriver:
                     **self._features(ctx.last_op if after == 'access'
                                      else None))
             obs += [flag, t.h.hx_loads, t.h.hx_failed]
+        if ctx.sibling is not None:
+            b = ctx.sibling
+            try:
+                flag = b.cached
+            except Exception as exc:
+                raise Violation('cached_raises', 'cached of the bystander '
+                                f'handle raised {exc!r}', **self._features())
+            if b.hx_calls or flag is not False:
+                raise Violation(
+                    'same_handle_every_path',
+                    f'after {ctx.last_op or "construction"} (addresses '
+                    f'{ctx.R}/{ctx.K}) the handle stored next to it as '
+                    f'{NAMES[self.names][2]!r}, which nothing addressed, '
+                    f'ran load() {b.hx_calls} time(s) and has cached == '
+                    f'{flag!r}', **self._features(
+                        ctx.last_op if ctx.last_op in FAMILY else None))
+            obs += [flag]
         return tuple(obs)
 
     # -- canonical key --------------------------------------------------
@@ -1451,33 +1532,43 @@ def drivers(tier):
             for loader in LOADERS:
                 drv = HandleDriver(spec, loader, shape)
                 d[drv.name] = (drv, dict(max_depth=12))
+    for names in ODD_NAMES:
+        for spec in NAMES_FIXPOINT_VALUES[tier] or VALUES:
+            for loader in LOADERS:
+                drv = HandleDriver(spec, loader, 'plain', names)
+                d[drv.name] = (drv, dict(max_depth=12))
     return d
 
 
 # -- every history of length D, no state merging -------------------------
-def history_cases(depth, letters=FULL_LETTERS, shape='plain'):
+def history_cases(depth, letters=FULL_LETTERS, shape='plain',
+                  names='plain'):
     import itertools
     words = [''.join(w) for w in itertools.product(letters, repeat=depth)]
     tail = () if shape == 'plain' else (shape,)
+    if names != 'plain':
+        tail = (shape, names)
     return [(spec, loader, w) + tail for spec in VALUES for loader in LOADERS
             for w in words]
 
 
 def split_history_case(case):
-    """-> (value, loader, word, shape)"""
+    """-> (value, loader, word, shape, names)"""
     case = tuple(case)
     if len(case) == 2:              # older records: loader 'ok'
-        return case[0], 'ok', case[1], 'plain'
+        return case[0], 'ok', case[1], 'plain', 'plain'
     if len(case) == 3:
+        return case + ('plain', 'plain')
+    if len(case) == 4:
         return case + ('plain',)
-    if len(case) != 4:
+    if len(case) != 5:
         raise HarnessError(f'malformed case {case!r}')
     return case
 
 
 def run_history(case):
-    spec, loader, word, shape = split_history_case(case)
-    driver = HandleDriver(spec, loader, shape)
+    spec, loader, word, shape, names = split_history_case(case)
+    driver = HandleDriver(spec, loader, shape, names)
     ctx = driver.initial()
     driver.check(ctx)
     for letter in word:
@@ -1486,7 +1577,8 @@ def run_history(case):
         driver.apply(ctx, (LETTER[letter],))
         driver.check(ctx)
     return {'calls': len(word), 'hits': dict(ctx.hits),
-            'key': (spec, loader, word, shape)}
+            'key': (spec, loader, word, shape)
+            + (() if names == 'plain' else (names,))}
 
 
 def run(tier, rep):
@@ -1668,6 +1760,17 @@ def run(tier, rep):
                                            values=list(VALUES),
                                            loaders=list(LOADERS)),
                                chunk=max(200, len(cases) // 400))
+        depth = NAMES_DEPTH[tier]
+        cases = [c for names in ODD_NAMES
+                 for c in history_cases(depth, BASIC_LETTERS, 'plain', names)]
+        kernel.enumerate_cases(
+            run_history, cases, rep, 'histories-names',
+            params=dict(length=depth, ops=BASIC_LETTERS, letters=LETTER,
+                        values=list(VALUES), loaders=list(LOADERS),
+                        names={n: dict(map=NAMES[n][0], handle=NAMES[n][1],
+                                       bystander=NAMES[n][2])
+                               for n in ODD_NAMES}),
+            chunk=max(200, len(cases) // 400))
         if tier == 'thorough':
             cases = history_cases(BASIC_DEPTH, BASIC_LETTERS)
             kernel.enumerate_cases(
@@ -1686,7 +1789,7 @@ def run(tier, rep):
 def replay(rec):
     try:
         if rec['part'] in ('histories', 'histories-basic',
-                           'histories-layered'):
+                           'histories-layered', 'histories-names'):
             try:
                 run_history(tuple(rec['case']))
             except Violation as v:
